@@ -157,8 +157,12 @@ impl Gen {
         let inner = rv::gen_value(&mut self.rng, depth, &mut budget);
         let v = rv::RV::Struct(vec![(0, rv::RV::U64(self.tag)), (1, inner)]);
         let bytes = if sender_version >= 20 {
+            // "exotic" = legal but unusual forms: byte strings in several segments, wide varints
             if self.rng.chance(1, 4) {
-                rv::encode_mixed(&v, &mut self.rng, false)
+                let exotic = self.rng.bool();
+                rv::encode_mixed(&v, &mut self.rng, exotic)
+            } else if self.rng.chance(1, 4) {
+                rv::encode_epoch_exotic(&v, rv::Epoch::V2, &mut self.rng)
             } else {
                 rv::encode_epoch(&v, rv::Epoch::V2)
             }
@@ -643,7 +647,14 @@ impl Gen {
                 if asked.is_empty() {
                     return None;
                 }
-                let (who, serial) = *self.rng.pick(&asked);
+                let (mut who, serial) = *self.rng.pick(&asked);
+                // one in four: a connection that was not asked answers with the live serial
+                if self.rng.chance(1, 4) {
+                    let others: Vec<usize> = (0..m.conns.len()).filter(|&x| x != who && m.conns[x].state == ConnState::Alive).collect();
+                    if !others.is_empty() {
+                        who = *self.rng.pick(&others);
+                    }
+                }
                 if m.conns[who].state != ConnState::Alive {
                     return None;
                 }
